@@ -57,11 +57,11 @@ def run(rep, tier, seed):
     rep.assume("floating-point accuracy just above the small-angle switch-over is NOT decided (proofs are over the reals); "
                "e.g. SE2 rjacinv's generic-branch numerator cancels to 0 in double near theta=2e-7 although it is correct over the reals")
     rep.assume("Bundles: every Bundle operation / Jacobian is the block-diagonal of its elements' (proved per layout under C11), so the element-group results proved here carry over")
-    for g in groups:
+    def one(rep, g):
         if g in errs:
             rep.fail("C06/%s/instantiates" % g, "BUILD", "g++", {"compiler_output": errs[g].output[-3000:]},
                      {"failing_input_reproduced": False})
-            continue
+            return
         check_group(rep, g, tier, seed)
         if g in berrs:
             rep.fail("C06/%s/smallAdj/instantiates" % g, "BUILD", "g++",
@@ -73,6 +73,7 @@ def run(rep, tier, seed):
                                        % g})
         else:
             check_smalladj(rep, g, seed)
+    rep.parallel(groups, one)
 
 
 def _first_error(out):
